@@ -119,6 +119,7 @@ type Run struct {
 	expectMake  map[string]bool
 	cuts        []string
 
+	nNormal    int
 	randPinned int64
 	horizon    bool
 	bgCtx     *ctxObj
